@@ -26,6 +26,7 @@ func init() {
 	registerRule("R35", ruleR35)
 	registerRule("R43", ruleR43)
 	registerRule("R44", ruleR44)
+	registerRule("R45", ruleR45)
 	registerRule("R42", ruleR42)
 	registerRule("R36", ruleR36)
 	registerRule("R41", ruleR41)
@@ -47,12 +48,12 @@ func init() {
 	registerRule("R28", func(c *Ctx) { c.run("R27") })
 
 	registerProp(&propSpec{ID: "C01", Level: "other",
-		Rules: []string{"R01", "R02", "R03", "R05", "R37", "R21", "R22", "R24", "R41", "R36", "R43", "R10", "R19", "R44"},
+		Rules: []string{"R01", "R02", "R03", "R05", "R37", "R21", "R22", "R24", "R41", "R36", "R43", "R10", "R19", "R44", "R45"},
 		Explain: "Static clauses of 'exact map under any history', decided on the type-checked source of every copy of the tree code (5 generated kinds + collation): " +
 			"R01 every index/slice of a caller-controlled key is dominated by the length fact it needs (so probing an absent key cannot fault on a key index); " +
 			"R02 every success outcome of Search/Delete and the value overwrite of Insert is dominated by the true edge of the full-key comparison with the stored form restoreKey returns; " +
 			"R03 on every CFG path of every Insert the set of link/relink/overwrite/size events is one of the accepted ones (nothing dropped, nothing double-counted); " +
-			"R05 the keys of each kind are prefix-free for a structural reason, which is what makes the key-exhausted edges of Insert infeasible. R21/R22/R24/R37/R41/R43 grow/shrink and add/delete of a child keep every registered child: the replacement node receives header, keys and children, capacity guards equal the array lengths, an addChild stores exactly one child and bumps the fan-out once, a size class whose deleteChild leaves holes never takes slot childrenLen, every deleteChild path vacates the slot; R36 the hand-written collation copy agrees with the compound instantiation of the template on node-layer calls, stores and position comparisons; R10 loops over a 256-entry byte table visit all 256 entries; R19 a search result is used as an index only when it is not the not-found value and (4-lane search) below the fill count; R44 the result of findChild is dereferenced only when it is not nil.",
+			"R05 the keys of each kind are prefix-free for a structural reason, which is what makes the key-exhausted edges of Insert infeasible. R21/R22/R24/R37/R41/R43 grow/shrink and add/delete of a child keep every registered child: the replacement node receives header, keys and children, capacity guards equal the array lengths, an addChild stores exactly one child and bumps the fan-out once, a size class whose deleteChild leaves holes never takes slot childrenLen, every deleteChild path vacates the slot; R36 the hand-written collation copy agrees with the compound instantiation of the template on node-layer calls, stores and position comparisons; R10 loops over a 256-entry byte table visit all 256 entries; R19 a search result is used as an index only when it is not the not-found value and (4-lane search) below the fill count; R44 the result of findChild is dereferenced only when it is not nil; R45 the descent loop of Search/Delete goes round exactly when it has moved to a child.",
 		NotDecided: "That descent, split and merge compute the right byte positions (compressed-path arithmetic, the 10-byte inline limit), and all value-level behaviour of the SWAR/SIMD node search: these quantify over runtime values and are out of reach of a static rule."})
 	registerProp(&propSpec{ID: "C06", Level: "other",
 		Rules: []string{"R03", "R04", "R05", "R14"},
@@ -81,11 +82,11 @@ func init() {
 		Explain:    "R09 minimum/maximum pick the first/last occupied slot of the same slot domain, with the same occupancy test and child expression, that the traversals enumerate (8 arms); R12 Minimum/Maximum report 'none' exactly on a nil result; R27/R28 TopK/BottomK count per pass and stop after yield returned false, ranging over Backward/All respectively (call-target check); R06 casts under tag facts. R35 Minimum/Maximum return restoreKey(minimum/maximum(root)) on every found path; R38 every yield of TopK/BottomK is dominated by budget left on the per-pass counter; R39 scan exits.",
 		NotDecided: "Nothing beyond C02's value-level remainder (sortedness inside 4/16-slot nodes)."})
 	registerProp(&propSpec{ID: "C08", Level: "other", DesignRef: "§4 C08",
-		Rules:      []string{"R16", "R17", "R08", "R01", "R02", "R03", "R04", "R05", "R06", "R09", "R12", "R26", "R39", "R40", "R36", "R42"},
+		Rules:      []string{"R16", "R17", "R08", "R01", "R02", "R03", "R04", "R05", "R06", "R09", "R12", "R26", "R39", "R40", "R36", "R42", "R45"},
 		Explain:    "collation.go is analysed as the sixth copy of the tree algorithm by every kind-generic rule (R01 guarded key indexes, R02 equality on the ORIGINAL string – not the sort key – dominates every success, R03/R04 link/size automaton, R06 tag casts, R09 inlined lookups, R12 nil flows), plus R16: the leaf pairs (key,keyLen) with the original bytes and (colKey,colKeyLen) with the sort key, descent uses only the sort key, restoreKey returns the original, WithCollator stores into the field that sort-key generation reads; R08 one normalisation per role at all entry points. R36 sibling agreement with the compound instantiation of the template; R42 the collator/buffer/codec a tree holds are per-tree objects (fresh or caller-supplied), never package-level singletons; R26 the tree keeps no alias of a caller slice; R39/R40 scan exits and Prefix result.",
 		NotDecided: "That x/text sort keys order like Collator.Compare and are prefix-free (library contract, recorded as assumption)."})
 	registerProp(&propSpec{ID: "C09", Level: "other", DesignRef: "§4 C09",
-		Rules:      []string{"R18", "R08", "R01", "R02", "R03", "R04", "R05", "R06", "R12", "R13", "R36"},
+		Rules:      []string{"R18", "R08", "R01", "R02", "R03", "R04", "R05", "R06", "R12", "R13", "R36", "R45"},
 		Explain:    "The compound instantiation is analysed by all kind-generic rules; R18/R08: the constructor stores the caller's codec in the field every method reads, every key→bytes conversion is bck.Transform with the SAME result index at Insert, Search, Delete and both Range bounds, stored bytes are decoded with bck.Restore. R36 sibling agreement with the collation copy.",
 		NotDecided: "Everything that depends on what the user's codec computes (injectivity, order, prefix-freedom are the property's premise and are recorded as assumptions)."})
 	registerProp(&propSpec{ID: "C14", Level: "other", DesignRef: "§4 C14",
